@@ -250,6 +250,15 @@ def decorate(r, case, pool):
         other = r.choice(pool)
         if other["fmt"] == case["fmt"]:
             case["prewrite"] = other["data"]
+    pl = case.get("opts", {}).get("project_to_plane")
+    if pl and not any(case["opts"].get(k) for k in ("align", "correct_scale", "align_origin")) and r.random() < 0.6 \
+            and isinstance(case.get("data"), dict) and "ref12" in case["data"]:
+        # positions that already lie exactly in the plane (2-D SLAM / wheel odometry: z = 0 throughout) with full 3-D
+        # orientations: the projection must still make every orientation a rotation about the normal
+        idx = {"xy": 11, "xz": 7, "yz": 3}[pl]
+        for key in ("ref12", "est12"):
+            case["data"][key] = [[0.0 if j == idx else v for j, v in enumerate(p)] for p in case["data"][key]]
+        case["flat_positions"] = True
     if r.random() < 0.06:
         # options outside the model that run BEFORE the result is saved: plotting (to a file) with colour-map bounds inside the
         # error range / a percentile bound; they must not change what is stored (the stored values are the computed ones)
